@@ -9,6 +9,27 @@ HASH_ITER = re.compile(r"(hash_map|hash::map|hash_set|hash::set|HashMap|HashSet)
 UPDATES = r"data_model_parser::DataModel::(update|update_system|update_with)$"
 
 
+def top_level_args(ga):
+    """split the generic-argument list `[A, B, C]` at top-level commas"""
+    ga = ga.strip()
+    if ga.startswith("[") and ga.endswith("]"):
+        ga = ga[1:-1]
+    out, depth, cur = [], 0, ""
+    for ch in ga:
+        if ch in "([<{":
+            depth += 1
+        elif ch in ")]>}":
+            depth -= 1
+        if ch == "," and depth == 0:
+            out.append(cur)
+            cur = ""
+        else:
+            cur += ch
+    if cur.strip():
+        out.append(cur)
+    return out
+
+
 def enclosing_loops(b, bi):
     """[(header block, iterator self type)] of the `for` loops containing block bi"""
     out = []
@@ -56,6 +77,58 @@ def run(P, C, tier):
              "identifier = len() at this call; enclosing loops iterate %s%s" % ([ty[:60] for _, ty in loops] or "nothing",
              " -- hash order decides the identifiers: two peers applying the same versions disagree" if hashed else ""))
     C.floor("R1", "positional identifier call sites", n, 3)
+    # when the items to number come out of a hash table they must be put back in declaration order first:
+    # the collection iterated at the call must have been sorted by a *numeric* key
+    for b, bi, t in P.call_sites(POSITIONAL):
+        loops = enclosing_loops(b, bi)
+        for h, ty in loops:
+            it = b.blocks[h]["t"]
+            a = b.call_args(h)
+            col = None
+            v = mir.strip_refs(a[0]) if a else None
+            if v is not None and v[0] == "var":
+                for d in b.var_defs(v):
+                    x = d
+                    for _ in range(6):
+                        while x[0] in ("ref", "deref"):
+                            x = x[1]
+                        if x[0] == "call" and x[2] and (mir.ITER_ADAPTOR.search(x[1]) or mir.TRANSPARENT.search(x[1])):
+                            x = x[2][0]
+                        else:
+                            break
+                    col = x
+            if col is None or col[0] != "var":
+                continue
+            from_hash = any(mir.has_call(d, r"(HashMap|hash_map|HashSet).*::(into_iter|iter|drain|into_values|values)$|::collect$") is not None for d in b.var_defs(col))
+            if not from_hash:
+                continue
+            sorts = []
+            for sb, stt in b.live_calls():
+                n2 = callee_name(stt)
+                if re.search(r"::(sort_by_key|sort_by|sort_unstable_by_key|sort_unstable_by|sort|sort_by_cached_key)$", n2):
+                    recv = mir.strip(b.call_args(sb)[0])
+                    if recv[:3] == col[:3] and b.dominates(sb, h):
+                        sorts.append((sb, n2, stt.get("ga", "")))
+            numeric = False
+            how = "not sorted"
+            for sb, n2, ga in sorts:
+                how = "%s%s" % (n2.split("::")[-1], ga)
+                if n2.endswith("_by_key"):
+                    tops = top_level_args(ga)
+                    if len(tops) > 1 and re.fullmatch(r"(usize|u32|u64|i64|i32|u16|u8|isize)", tops[1].strip()):
+                        numeric = True
+                if n2.endswith("sort_by") or n2.endswith("sort_unstable_by"):
+                    # comparator closure: compares parsed integers?
+                    cl = b.call_args(sb)[1]
+                    cb = P.bodies.get(cl[2]) if cl[0] == "aggr" and cl[1] == "closure" else None
+                    if cb is not None:
+                        cmps = cb.calls_to(r"::cmp$")
+                        for cbi, ct in cmps:
+                            st_ = (ct.get("self") or "") + (ct.get("ga") or "")
+                            if re.search(r"\b(usize|u32|u64|i64|i32)\b", st_):
+                                numeric = True
+            C.ob("R1", "declaration-order:%s<-%s" % (callee_name(t).split("::")[-1], mir.short(b.id)), numeric, b.loc(h),
+                 "items taken out of a hash table are numbered in the order of `%s`: the key must be the numeric declaration position (a string comparison of positions puts \"100\" before \"99\")" % how)
     nh = 0
     for b, bi, t in P.call_sites(r"blake3::Hasher::update$"):
         loops = enclosing_loops(b, bi)
